@@ -250,6 +250,29 @@ func TestC13_window(t *testing.T) {
 		}
 		if cfg, _ := findConfig(c.Config); cfg.Quiescence && rapid.IntRange(0, 2).Draw(t, "quiet") == 0 {
 			c.Quiet = true
+			if rapid.Bool().Draw(t, "terminalroot") {
+				// a root at or next to a mate/stalemate: walk a sparse ending towards its end
+				st := matingEnding(t)
+				g := oracle.NewGame(st)
+				c.FEN, c.Moves = st.FEN(), nil
+				stopBefore := rapid.IntRange(0, 2).Draw(t, "stopbefore")
+				for i := 0; i < 40 && g.Cur().Pos.HasLegal() && !g.DrawNow(); i++ {
+					l := g.Cur().Pos.Legal()
+					pick := l[rapid.IntRange(0, len(l)-1).Draw(t, "mv")]
+					final := false
+					for _, m := range l {
+						n := g.Cur().Pos.Make(m)
+						if !n.HasLegal() {
+							pick, final = m, true
+						}
+					}
+					if final && stopBefore > 0 {
+						break
+					}
+					g.Push(pick)
+					c.Moves = append(c.Moves, pick.String())
+				}
+			}
 		}
 		return c
 	}, func(c windowCase) error {
